@@ -128,12 +128,12 @@ CHECKS = {
         design="5-C16"),
     "C17": dict(
         engine="E2-handler",
-        technique="Coq proof (dispatch membership iff, exactly-once decomposition and |metrics| x |processors| count, call fields, value defaulting, no-processor no-budget) + in-Coq correspondence with the real metric action",
-        text="6 Coq theorems over Metric.v: on a permitted hit the calls are exactly one per (definition, processor) pair, those "
+        technique="Coq proof over functions REGENERATED from /repo/src by a fail-closed Python-ast translator (pure.py) and proved equal to the model + Coq proof (dispatch membership iff, exactly-once decomposition and |metrics| x |processors| count, call fields, value defaulting, no-processor no-budget) + in-Coq correspondence with the real metric action",
+        text="8 Coq theorems over Metric.v: on a permitted hit the calls are exactly one per (definition, processor) pair, those "
              "of one definition being one per processor in order; operation = lower-cased type, namespace defaults to 'deep', "
              "name/help/unit passed on; value = the expression's number, else 1 (absent, non-numeric, failing); with no "
              "processor nothing is reported and the stats are unchanged. Tied to the code by generated definition lists x "
-             "0-3 recording processors x 1-3 hits through the real handler; calls in order and fire count compared in Coq.",
+             "0-3 recording processors x 1-3 hits through the real handler; calls in order and fire count compared in Coq. Tie T2: MetricActionContext.can_trigger and _convert_type are translated from source on every run (coq/gen/PMetrics.v): C17_the_code_needs_a_processor, C17_the_code_operation_is_the_model.",
         note="Trusted: Coq kernel+VM; harness; numbers compared by printed text; processors that fail are C20.",
         design="5-C17"),
     "C03": dict(
